@@ -67,7 +67,6 @@ class Pools:
                 mp_context=self.ctx,
                 initializer=_init,
                 initargs=(devices,),
-                max_tasks_per_child=int(os.environ.get("MDPSIM_RECYCLE", "150")),
             )
         return self.pools[devices]
 
@@ -100,6 +99,15 @@ class Pools:
 def run_cases(pools: Pools, prop: str, items: list[tuple[int, int, int]], deadline: float | None = None, on_result=None):
     """items: (index, seed, devices).  Returns list of results (index order).  A broken pool or
     a timeout yields a harness_error result for the affected items - never a silent pass."""
+    chunk = int(os.environ.get("MDPSIM_CHUNK", "1500"))
+    if len(items) > chunk:
+        # worker recycling by hand: fresh processes for every chunk of cases
+        # (ProcessPoolExecutor(max_tasks_per_child=...) can deadlock on Python 3.12.1, gh-115634)
+        res = []
+        for i in range(0, len(items), chunk):
+            res += run_cases(pools, prop, items[i : i + chunk], deadline=deadline, on_result=on_result)
+            pools.shutdown()
+        return res
     futs = {}
     counts: dict[int, int] = {}
     for _, _, d in items:
